@@ -595,6 +595,7 @@ func planC15(prop string, seed uint64, tier string, idx int) *Plan {
 		g.p.Profile = "adversarial requests + disk faults"
 		k.FaultRate = g.r.pick(20, 60, 150)
 		k.FaultKinds = [][]string{{"read"}, {"write"}, {"meta"}, {"read", "write", "meta"}}[g.r.intn(4)]
+		k.FaultRecover = idx%8 == 7
 	}
 	subj := g.newImage(-1, -1)
 	var arts []int
